@@ -734,3 +734,66 @@ Proof.
   - split; reflexivity.
 Qed.
 End WithRegex2.
+
+(** * 10. The executable spec oracle decides the spec *)
+Lemma le_decb_iff a b : le_decb a b = true <-> le_dec a b.
+Proof. unfold le_decb, le_dec. apply Z.leb_le. Qed.
+
+Lemma in_altb_iff tmin tmax v a : in_altb tmin tmax v a = true <-> in_alt tmin tmax v a.
+Proof.
+  unfold in_altb, in_alt. rewrite andb_true_iff.
+  destruct (a_lo a), (a_hi a); rewrite ?le_decb_iff; intuition.
+Qed.
+
+Lemma in_restrb_iff tmin tmax v o : in_restrb tmin tmax v o = true <-> in_restr tmin tmax v o.
+Proof.
+  destruct o as [alts|]; cbn; [|tauto]. rewrite existsb_exists.
+  split; intros [a [Hin Ha]]; exists a; (split; [exact Hin|]); apply in_altb_iff; exact Ha.
+Qed.
+
+Lemma forallb_Forall {A} (f : A -> bool) (P : A -> Prop) l :
+  (forall x, f x = true <-> P x) -> forallb f l = true <-> Forall P l.
+Proof.
+  intros H. rewrite forallb_forall, Forall_forall. split; intros G x Hx; apply H; auto.
+Qed.
+
+Section WithRegex3.
+Variable rx : text -> text -> bool.
+
+Lemma pat_holdsb_iff t p : pat_holdsb rx t p = true <-> pat_holds rx t p.
+Proof. unfold pat_holdsb, pat_holds. apply eqb_true_iff. Qed.
+
+Lemma in_scalarb_iff b levels s : in_scalarb rx b levels s = true <-> in_scalar rx b levels s.
+Proof.
+  destruct b, s; cbn; try (split; [discriminate|contradiction]).
+  - rewrite !andb_true_iff, !Z.leb_le.
+    rewrite (forallb_Forall _ (fun l => in_restr (kind_min k, 0%nat) (kind_max k, 0%nat) (z, 0%nat) (sl_range l)));
+      [tauto|]. intros l. apply in_restrb_iff.
+  - apply forallb_Forall. intros l. apply in_restrb_iff.
+  - apply forallb_Forall. intros l. rewrite andb_true_iff, in_restrb_iff.
+    rewrite (forallb_Forall _ (pat_holds rx s)); [tauto|]. intros p. apply pat_holdsb_iff.
+  - rewrite existsb_exists. split; intros [e [Hin He]]; exists e; (split; [exact Hin|]); apply text_eqb_eq; auto.
+  - rewrite existsb_exists. split; intros [e [Hin He]]; exists e; (split; [exact Hin|]); apply Z.eqb_eq; auto.
+  - rewrite forallb_forall. split.
+    + intros H n Hn Hne. specialize (H n Hn). destruct n; [congruence|].
+      apply existsb_exists in H. destruct H as [d [Hd He]]. apply text_eqb_eq in He. subst. exact Hd.
+    + intros H n Hn. destruct n as [|c n']; [reflexivity|]. apply existsb_exists.
+      exists (c :: n'). split; [apply H; [exact Hn|discriminate]|apply text_eqb_eq; reflexivity].
+Qed.
+
+Theorem in_effective_typeb_iff b il levels v :
+  in_effective_typeb rx b il levels v = true <-> in_effective_type rx b il levels v.
+Proof.
+  destruct il, v; cbn; try (split; [discriminate|contradiction]).
+  - apply forallb_Forall. intros s. apply in_scalarb_iff.
+  - apply in_scalarb_iff.
+Qed.
+End WithRegex3.
+
+(** * 11. The code before the repairs violated the property (kept as refutations) *)
+
+(** levels OR-ed: typedef 0..100 narrowed to 1..10 accepted 50 *)
+Lemma or_levels_old_accepts :
+  check_range_old [[ERange (RInt 1) (RInt 10)]; [ERange (RInt 0) (RInt 100)]] (NInt 50) = Pass /\
+  all_levels [[ERange (RInt 1) (RInt 10)]; [ERange (RInt 0) (RInt 100)]] (NInt 50) = Fail.
+Proof. split; vm_compute; reflexivity. Qed.
